@@ -121,6 +121,10 @@ def gen_case(rnd, idx):
         lines.insert(0, 'include GD32VF103.asm')
         lines.append('    li t0, RCU_BASE_ADDR')
         lines.append('    lw t1, RCU_CTL_OFFSET(t0)')
+        if rnd.random() < 0.4:
+            # the project's own (patched) copy of a bundled file: -i directories come before the bundled definitions
+            files['inc/GD32VF103.asm'] = ['RCU_BASE_ADDR = 0x40021040', 'RCU_CTL_OFFSET = 8', 'GPIO_BASE_ADDR_A = 0x40010800']
+            opts['incs'] = ['inc']
     # outputs
     opts['output'] = rnd.choice([None, None, 'out.bin', 'out.bin', 'build/out.bin', ROOT + '/build/abs.bin', 'prog'])
     opts['labels'] = rnd.choice([None, 'labels.txt', 'labels.txt', 'build/l.txt', ROOT + '/l.abs', ''])
@@ -159,8 +163,17 @@ def gen_case(rnd, idx):
         bad = rnd.choice(['nosuchdir', 'main.asm' if main == 'main.asm' else 'src/main.asm', 'build/nosuch'])
         opts['incs'] = opts['incs'] + [bad] if rnd.random() < 0.5 else [bad] + opts['incs']
         planted = 'option:invalid-include-dir'
+    link = None
+    if rnd.random() < 0.12:
+        # the input path is a symbolic link into another directory: the files NEXT TO THE LINK are the adjacent ones
+        link = 'store'
+        dirs.append('store')
+        adj = os.path.join(os.path.dirname(main), 'adj.asm')
+        files[adj] = ['ADJ_HERE:', '    addi a1, a1, 11']
+        files['store/adj.asm'] = ['ADJ_DECOY:', '    addi a1, a1, 22', '    addi a1, a1, 33']
+        lines.insert(rnd.randrange(0, len(lines) + 1), 'include adj.asm')
     files[main] = lines
-    c.update(files=files, dirs=dirs, main=main, opts=opts, planted=planted)
+    c.update(files=files, dirs=dirs, main=main, opts=opts, planted=planted, link=link)
     c['main_arg'] = rnd.choice([main] * 6 + [ROOT + '/' + main] * 3 + ['./' + main])
     if planted == 'option:missing-input':
         c['main_arg'] = rnd.choice(['nosuch.asm', 'src/nosuch.asm', ROOT + '/gone.asm'])
@@ -219,7 +232,11 @@ def check_case(c, repo=None):
         for d in c['dirs']:
             os.makedirs(os.path.join(root, d), exist_ok=True)
         for p, lines in c['files'].items():
-            with open(os.path.join(root, p), 'w', newline='') as f:
+            dest = os.path.join(root, p)
+            if c.get('link') and p == c['main']:
+                dest = os.path.join(root, c['link'], 'main_real.asm')
+                os.symlink(os.path.relpath(dest, os.path.dirname(os.path.join(root, p))), os.path.join(root, p))
+            with open(dest, 'w', newline='') as f:
                 f.write('\n'.join(lines).replace(ROOT, root) + '\n')
         outp, labp, hexp = paths_of(c, root)
         sent = {}
